@@ -107,6 +107,10 @@ pub enum Req {
     RHeartbeat,
     /// ChannelHandler (protocol version 4) arm SignLocalCommitmentTx2 for holder commitment 0
     HSignLocal(usize),
+    /// (round 10) ChannelHandler arm GetPerCommitmentPoint2 (with_channel_base) for commitment 1
+    HPoint(usize),
+    /// (round 10) ChannelHandler arm CheckFutureSecret (with_channel; commitment 0, a constant foreign secret)
+    HFuture(usize),
 }
 
 impl Req {
@@ -134,7 +138,8 @@ impl Req {
             Req::RNewChan(_) => "new_channel",
             Req::RForget(_) => "forget_channel",
             Req::RTipInfo | Req::RHeartbeat => "get_heartbeat",
-            Req::HSignLocal(_) => "channel_request",
+            Req::HSignLocal(_) | Req::HFuture(_) => "channel_request",
+            Req::HPoint(_) => "channel_base_request",
         }
     }
     pub fn line(&self, tid: usize) -> String {
@@ -171,6 +176,8 @@ impl Req {
             Req::RTipInfo => format!("req {} rtipinfo", tid),
             Req::RHeartbeat => format!("req {} rheartbeat", tid),
             Req::HSignLocal(c) => format!("req {} hsignlocal {}", tid, c),
+            Req::HPoint(c) => format!("req {} hpoint {}", tid, c),
+            Req::HFuture(c) => format!("req {} hfuture {}", tid, c),
         }
     }
     pub fn parse(toks: &[&str]) -> Option<(usize, Req)> {
@@ -211,6 +218,8 @@ impl Req {
             "rtipinfo" => Req::RTipInfo,
             "rheartbeat" => Req::RHeartbeat,
             "hsignlocal" => Req::HSignLocal(arg()? as usize),
+            "hpoint" => Req::HPoint(arg()? as usize),
+            "hfuture" => Req::HFuture(arg()? as usize),
             _ => return None,
         };
         Some((tid, r))
@@ -734,7 +743,7 @@ fn build_world(sc: &Scenario) -> World {
     let mut pay_commits = Vec::new();
     let needs = |f: &dyn Fn(&Req) -> bool| sc.threads.iter().flatten().any(|q| f(q));
     let need_plain = needs(&|q| matches!(q, Req::Validate(_) | Req::HVal(_, _) | Req::Refused(_)));
-    let need_handler = needs(&|q| matches!(q, Req::HVal(_, _) | Req::HSignLocal(_)));
+    let need_handler = needs(&|q| matches!(q, Req::HVal(_, _) | Req::HSignLocal(_) | Req::HPoint(_) | Req::HFuture(_)));
     let mut commits_b = Vec::new();
     let mut handlers = Vec::new();
     let need_pay = needs(&|q| matches!(q, Req::PayHv(_)));
@@ -1195,6 +1204,25 @@ fn do_req(w: &World, r: &Req) -> String {
                 use vls_protocol::msgs::{self, Message};
                 use vls_protocol_signer::handler::Handler;
                 match h.handle(Message::SignLocalCommitmentTx2(msgs::SignLocalCommitmentTx2 { commitment_number: 0 })) {
+                    Ok(reply) => format!("ok {}", &hex::encode(reply.as_vec())[..24.min(reply.as_vec().len() * 2)]),
+                    Err(e) => format!("err:{:?}", e).chars().take(140).collect(),
+                }
+            }
+            None => "nochan".into(),
+        },
+        Req::HPoint(c) | Req::HFuture(c) => match w.handlers.get(*c).and_then(|h| h.as_ref()) {
+            Some(h) => {
+                use vls_protocol::msgs::{self, Message};
+                use vls_protocol_signer::handler::Handler;
+                let m = if matches!(r, Req::HPoint(_)) {
+                    Message::GetPerCommitmentPoint2(msgs::GetPerCommitmentPoint2 { commitment_number: 1 })
+                } else {
+                    Message::CheckFutureSecret(msgs::CheckFutureSecret {
+                        commitment_number: 0,
+                        secret: vls_protocol::model::DisclosedSecret([1u8; 32]),
+                    })
+                };
+                match h.handle(m) {
                     Ok(reply) => format!("ok {}", &hex::encode(reply.as_vec())[..24.min(reply.as_vec().len() * 2)]),
                     Err(e) => format!("err:{:?}", e).chars().take(140).collect(),
                 }
@@ -2443,6 +2471,12 @@ impl Group for C20 {
             p(1, false, Req::HSignLocal(0), Req::Keysend(1)),
             p(1, false, Req::HSignLocal(0), Req::HVal(0, 0)),
             p(1, false, Req::HSignLocal(0), Req::Balance),
+            // (round 10) two more ChannelHandler arms: GetPerCommitmentPoint2 (with_channel_base), CheckFutureSecret
+            p(1, false, Req::HPoint(0), Req::HVal(0, 0)),
+            p(1, false, Req::HPoint(0), Req::Forget(0)),
+            p(1, false, Req::HFuture(0), Req::Validate(0)),
+            p(1, false, Req::HFuture(0), Req::AddBlock(0)),
+            p(2, false, Req::HFuture(0), Req::HPoint(1)),
         ];
         let mut out = Vec::new();
         for sc in &pairs {
